@@ -436,11 +436,18 @@ class BuiltinMixin:
             raise Unsupported(f"container of {v!r}")
         return v.ty
 
+    def adapt(self, p, v, ty):
+        """coerce + give an empty `[]`/`{}` literal of still unknown element type the type of its destination."""
+        if isinstance(v, VRef) and v.cls in ("list[?]", "dict[?]", "set[?]") and isinstance(ty, TRef) \
+                and ty.cls in self.classes and self.classes[ty.cls].box:
+            return self.retag_box(p, v, ty.cls)
+        return coerce(v, ty)
+
     def list_method(self, p, recv, s: VSeq, name, args, kwargs, node):
         w = f"L{getattr(node, 'lineno', '?')}"
         i = z3.Int(fresh_name("li"))
         if name == "append":
-            x = coerce(args[0], s.elem)
+            x = self.adapt(p, args[0], s.elem)
             new = VSeq(s.len + 1, [z3.Store(a, s.len, c) for a, c in zip(s.arrs, x.comps())], s.elem)
             self.write_field(p, recv, "$v", new)
             return [(p, VNone())]
@@ -452,7 +459,7 @@ class BuiltinMixin:
             idx = args[0].z
             n = s.len
             k = z3.If(idx < 0, z3.If(idx + n < 0, 0, idx + n), z3.If(idx > n, n, idx))
-            x = coerce(args[1], s.elem)
+            x = self.adapt(p, args[1], s.elem)
             arrs = [z3.Lambda([i], z3.If(i < k, z3.Select(a, i), z3.If(i == k, c, z3.Select(a, i - 1)))) for a, c in zip(s.arrs, x.comps())]
             self.write_field(p, recv, "$v", VSeq(n + 1, arrs, s.elem))
             return [(p, VNone())]
@@ -549,7 +556,7 @@ class BuiltinMixin:
             if pt is not None:
                 out.append((pt, m.get(k)))
             if pf is not None:
-                v = coerce(args[1] if len(args) > 1 else VNone(), m.ty.v)
+                v = self.adapt(pf, args[1] if len(args) > 1 else VNone(), m.ty.v)
                 self.write_field(pf, box, "$v", self.map_store(pf, m, k, v))
                 out.append((pf, v))
             return out
@@ -607,7 +614,7 @@ class BuiltinMixin:
                     j = z3.If(i < 0, i + bv.len, i)
 
                     def ok(q):
-                        x = coerce(v, bv.elem)
+                        x = self.adapt(q, v, bv.elem)
                         self.write_field(q, base, "$v", VSeq(bv.len, [z3.Store(a, j, c) for a, c in zip(bv.arrs, x.comps())], bv.elem))
                         return [(q, NEXT)]
                     pt, pf = self.fork(p, z3.Or(j < 0, j >= bv.len), f"IndexError {w}")
@@ -615,7 +622,7 @@ class BuiltinMixin:
                     return out + (ok(pf) if pf is not None else [])
                 if d.box[0] == "dict":
                     k = coerce(idx, bv.ty.k)
-                    self.write_field(p, base, "$v", self.map_store(p, bv, k, coerce(v, bv.ty.v)))
+                    self.write_field(p, base, "$v", self.map_store(p, bv, k, self.adapt(p, v, bv.ty.v)))
                     return [(p, NEXT)]
                 if d.box[0] == "counter":
                     k = coerce(idx, bv.elem)
